@@ -359,20 +359,7 @@ pub fn xnames(v: &[String]) -> String {
     if v.is_empty() {
         "-".into()
     } else {
-        v.iter()
-            .map(|n| {
-                // code points as bytes only works for names whose chars are < 256; others are sent as
-                // UTF-8 bytes which the model then sees as several code points – still "not a label".
-                let b: Vec<u8> = if n.chars().all(|c| (c as u32) < 256) {
-                    n.chars().map(|c| c as u32 as u8).collect()
-                } else {
-                    n.as_bytes().to_vec()
-                };
-                let h = hex(&b);
-                format!("x{}", if h == "-" { "" } else { &h })
-            })
-            .collect::<Vec<_>>()
-            .join(",")
+        v.iter().map(|n| format!("x{}", hexn(n))).collect::<Vec<_>>().join(",")
     }
 }
 
